@@ -12,14 +12,19 @@ META = {
     "level_text": ("Theorems C07.query_sound / query_complete (w.r.t. spells: a path of the syllable graph carrying the code), "
                    "match_extra_sound / match_extra_farthest, iterator_perm / iterator_order (every emitted entry is a best chunk head, "
                    "each chunk in table order), script_order (descending end position after an optional sentence), "
-                   "table_exact_then_completion, distinct_nodup: for every table, every syllable graph and every input. The model is run "
+                   "table_exact_then_completion, distinct_nodup, and for table schemas with enable_sentence word_graph_edges_sound / "
+                   "table_sentence_shape / consume_trailing_delimiters_spec: for every table, every syllable graph and every input. The model is run "
                    "against the real Dictionary::Lookup and the candidate lists of a deployed script-style and table-style schema for "
                    "all inputs up to a length bound over alphabet and delimiters plus random longer ones, and the property is "
                    "evaluated directly on the implementation's lists against a brute-force reference over the source dictionary."),
     "level_note": ("Trusted / inputs of the model: the syllable graph (recorded from the real Syllabifier; C08 owns its model), the "
-                   "prism's GetValue/ExpandSearch answers (C09), the compiled table (C06). Sentence composition (Poet) is an oracle: "
-                   "only 'a sentence is a concatenation of entries covering the interpreted input' is monitored; the model decides "
-                   "only when a sentence is asked for. Sums credibility+weight are exact in the model and rounded to double in the "
+                   "prism's GetValue/ExpandSearch answers (C09), the compiled table (C06). TableTranslator::MakeSentence (enable_sentence, static-dictionary branch) IS in the Lean model: word graph over the "
+                   "prism's CommonPrefixSearch answers (recorded) with consume_trailing_delimiters, the poet's reachability, the collector "
+                   "of first words and SentenceTranslation's emission order; its user-dictionary/encoder branches and "
+                   "sentence_over_completion are not. Sentence composition (Poet) is an oracle: "
+                   "only 'a sentence is a concatenation of entries whose codes (+ delimiters) cover the input' is monitored against a "
+                   "brute-force reference (script and table), plus completeness of the first-word entries; the model decides when a "
+                   "sentence is due (script: Evaluate's condition; table: the end is reachable in the word graph). Sums credibility+weight are exact in the model and rounded to double in the "
                    "code (same order except within one ulp; lists are compared modulo such ties). User dictionary, corrector, "
                    "contextual suggestions, max_homophones, charset filter, encoder: off."),
     "design_ref": "DESIGN.md §3 C07",
